@@ -94,11 +94,57 @@ package val
 //@   ensures #value result == ite(v.V != nil, v.V, defVal)
 
 //@ func Equals
+//@   props C18 C04 C03
+//@   requires (x != nil ==> wfV(x)) && (y != nil ==> wfV(y))
+//@   unfold valEq(x, y)
+//@   unfold wfV(x)
+//@   unfold wfV(y)
+//@   unfold wfT(x.Type)
+//@   unfold wfT(y.Type)
+//@   unfold tyEq(x.Type, y.Type)
+//@   nopanic
+//@   modifies
+//@   ensures #spec result == valEq(x, y)
+
+//@ func equalsList
+//@   props C18 C04 C03
+//@   requires x != nil && y != nil && forall(i, 0, len(x.V), wfV(x.V[i])) && forall(i, 0, len(y.V), wfV(y.V[i]))
+//@   nopanic
+//@   modifies
+//@   loop 1 invariant 0 <= i && i <= len(x.V) && len(x.V) == len(y.V) && forall(k, 0, i, valEq(x.V[k], y.V[k]))
+//@   ensures #spec result == valEqSeq(x.V, y.V)
+
+//@ func equalsObj
+//@   props C18 C04 C03
+//@   requires x != nil && y != nil && dynis(x, ObjVal) && dynis(y, ObjVal) && wfT(x.Type) && wfT(y.Type) && x.Type.Kind == types.KObj && y.Type.Kind == types.KObj
+//@   requires len(x.V) == len(x.Type.Obj().Fields) && len(y.V) == len(y.Type.Obj().Fields) && tyEq(x.Type, y.Type)
+//@   requires forall(i, 0, len(x.V), wfV(x.V[i])) && forall(i, 0, len(y.V), wfV(y.V[i]))
+//@   unfold wfT(x.Type)
+//@   unfold wfT(y.Type)
+//@   unfold tyEq(x.Type, y.Type)
+//@   nopanic
+//@   modifies
+//@   loop 1 invariant len(x.V) == len(y.V)
+//@   loop 1 invariant forall(k, 0, rangeindex+1, exists(j, 0, len(y.V), y.Type.Obj().Fields[j].Name == x.Type.Obj().Fields[k].Name && valEq(x.V[k], y.V[j])))
+//@   ensures #spec result == valEqObj(x, y)
+
+//@ func equalsMaybe
+//@   props C18 C04 C03
+//@   requires x != nil && y != nil && dynis(x, MaybeVal) && dynis(y, MaybeVal) && wfT(x.Type) && wfT(y.Type) && x.Type.Kind == types.KMaybe && y.Type.Kind == types.KMaybe
+//@   requires (x.V != nil ==> wfV(x.V)) && (y.V != nil ==> wfV(y.V))
+//@   unfold wfT(x.Type)
+//@   unfold wfT(y.Type)
+//@   nopanic
+//@   modifies
+//@   ensures #spec result == valEqMaybe(x, y)
+
+// map equality walks a Go map (range): assumed
+//@ func equalsMap
 //@   props C18
 //@   trusted
 //@   nopanic
-//@   pure
-//@   ensures result == valEq(x, y)
+//@   modifies
+//@   ensures result == mapEq(x, y)
 
 //@ func Time
 //@   props C01 C04
